@@ -501,6 +501,7 @@ theorem countersignature_sign_no_panic (cs : SigV) (s : Signer) (parent : Parent
         simp only []
         have h3 := hs tbs
         cases hsg : s.sign tbs <;> simp_all
+        split <;> simp
       | err e => simp
       | panic => exact absurd ht h2
       | unmodelled => simp
@@ -512,7 +513,18 @@ theorem countersign0_no_panic (s : Signer) (parent : Parent) (ext : Option Bytes
     (hs : ∀ t, s.sign t ≠ .panic) : (countersign0 s parent ext).1 ≠ .panic := by
   unfold countersign0
   have h2 := countersign_tbs_no_panic true parent [0x40] ext
-  cases ht : countersignToBeSigned true parent [0x40] ext <;> simp_all
+  cases ht : countersignToBeSigned true parent [0x40] ext with
+  | ok tbs =>
+    simp only []
+    have h3 := hs tbs
+    cases hsg : s.sign tbs with
+    | ok sig => simp only []; split <;> simp
+    | err e => simp
+    | panic => exact absurd hsg h3
+    | unmodelled => simp
+  | err e => simp
+  | panic => exact absurd ht h2
+  | unmodelled => simp
 
 /-! ### 3 (cont.). VerifyHashEnvelope: decode, validate, verify -/
 
